@@ -33,178 +33,264 @@ palette/src/macros/arithmetics.rs""".split())
 CONST_FNS = {"from_f64", "one", "max_intensity", "full_rotation", "half_rotation"}
 
 # (function path suffix, canonical divisor key [norm_render: arithmetic lets expanded, sums/products sorted, long keys abbreviated to a prefix
-# and a digest]) -> reason.  Confirmed by reading; keys regenerated mechanically whenever the normal form changes.
+# and a digest]) -> (reason, [shallow keys of the sites it covers: the same expression with locals left as names]).  Confirmed by reading; keys
+# regenerated mechanically whenever the normal form changes.
 TABLE = {
     ("blend::blend::dodge_blend", "(+ one() - src)"):
-        "arm reached only when src < 1 (previous arm returns for src >= 1): divisor > 0",
+        ("arm reached only when src < 1 (previous arm returns for src >= 1): divisor > 0",
+         ["(+ one() - src)"]),
     ("blend::blend::burn_blend", "src"):
-        "arm reached only when src > 0 (previous arm returns for src <= 0)",
+        ("arm reached only when src > 0 (previous arm returns for src <= 0)",
+         ["src"]),
     ("cam16::math::xyz_to_cam16", "from_scalar(parameters.a_w)"):
-        "A_w > 0: achromatic response of the adopted white",
+        ("A_w > 0: achromatic response of the adopted white",
+         ["from_scalar(parameters.a_w)"]),
     ("cam16::math::xyz_to_cam16", "(+ (b_a * from_f64(1.05)) + from_f64(0.305) + g_a + r_a)"):
-        "CAM16 t denominator: compressed responses of a colour inside the gamut are > -0.1 each; +0.305 keeps it positive",
+        ("CAM16 t denominator: compressed responses of a colour inside the gamut are > -0.1 each; +0.305 keeps it positive",
+         ["(+ (b_a * from_f64(1.05)) + from_f64(0.305) + g_a + r_a)"]),
     ("cam16::math::calculate_brightness", "param_c"):
-        "surround factor c in [0.525, 0.69]",
+        ("surround factor c in [0.525, 0.69]",
+         ["param_c"]),
     ("cam16::math::calculate_saturation", "(+ from_f64(4.0) + param_a_w)"):
-        "A_w + 4 > 0",
+        ("A_w + 4 > 0",
+         ["(+ from_f64(4.0) + param_a_w)"]),
     ("cam16::math::non_black_cam16_to_xyz", "j_root"):
-        "only called for non-black colours (cam16_to_xyz selects zero for J = 0 / Q = 0): J_root > 0",
+        ("only called for non-black colours (cam16_to_xyz selects zero for J = 0 / Q = 0): J_root > 0",
+         ["j_root"]),
     ("cam16::math::non_black_cam16_to_xyz", "from_scalar(parameters.z)"):
-        "z = 1.48 + sqrt(n) > 0",
+        ("z = 1.48 + sqrt(n) > 0",
+         ["from_scalar(parameters.z)"]),
     ("cam16::math::non_black_cam16_to_xyz", "from_scalar(parameters.c)"):
-        "surround factor c in [0.525, 0.69]",
+        ("surround factor c in [0.525, 0.69]",
+         ["from_scalar(parameters.c)"]),
     ("cam16::math::non_black_cam16_to_xyz", "from_scalar(parameters.n_bb)"):
-        "N_bb = 0.725 n^-0.2 > 0",
+        ("N_bb = 0.725 n^-0.2 > 0",
+         ["from_scalar(parameters.n_bb)"]),
     ("cam16::math::non_black_cam16_to_xyz", "(+ ((+ (+ from_f64(2.0) + h_rad).cos() + from_f64(3.8)) * (from_f64(5e4) / from_f64(13.0)) * from_f6 ...#29fd7693fba5"):
-        "CAM16 inverse step: 23 p_1 dominates for in-gamut chroma (p_1 ~ 3846 N_c N_cb e_t >= 2.7e3 e_t)",
+        ("CAM16 inverse step: 23 p_1 dominates for in-gamut chroma (p_1 ~ 3846 N_c N_cb e_t >= 2.7e3 e_t)",
+         ["(+ ((+ (cos_h * from_f64(11.0)) + (from_f64(108.0) * sin_h)) * t) + (from_f64(23.0) * p_1))"]),
     ("cam16::math::prepare_parameters", "(+ (from_f64(5.0) * parameters.adapting_luminance) + one())"):
-        "5 L_A + 1 >= 1 for a non-negative adapting luminance",
+        ("5 L_A + 1 >= 1 for a non-negative adapting luminance",
+         ["(+ (from_f64(5.0) * l_a) + one())"]),
     ("cam16::math::prepare_parameters", "(from_f64(100.0) * parameters.white_point).y"):
-        "white point luminance > 0",
+        ("white point luminance > 0",
+         ["y_w"]),
     ("cam16::math::prepare_parameters", "c_w"):
-        "cone response of the white point > 0",
+        ("cone response of the white point > 0",
+         ["c_w"]),
     ("cam16::math::prepare_parameters", "d_c"):
-        "D_RGB component: lerp(1, Y_w/RGB_w, D) > 0",
+        ("D_RGB component: lerp(1, Y_w/RGB_w, D) > 0",
+         ["d_c"]),
     ("cam16::math::prepare_parameters", "f_l"):
-        "F_L > 0 for L_A > 0",
+        ("F_L > 0 for L_A > 0",
+         ["f_l"]),
     ("cam16::math::chroma_to_saturation", "j_root"):
-        "called through ChromaticityType::into_cam16 only in the non-black arm of lazy_select",
+        ("called through ChromaticityType::into_cam16 only in the non-black arm of lazy_select",
+         ["j_root"]),
     ("cam16::math::colorfulness_to_chroma", "param_f_l_4"):
-        "F_L^(1/4) > 0",
+        ("F_L^(1/4) > 0",
+         ["param_f_l_4"]),
     ("cam16::math::brightness_to_j_root", "((+ from_f64(4.0) + param_a_w) * param_f_l_4)"):
-        "(4 + A_w) F_L^(1/4) > 0",
+        ("(4 + A_w) F_L^(1/4) > 0",
+         ["((+ from_f64(4.0) + param_a_w) * param_f_l_4)"]),
     ("cam16::math::saturation_to_alpha", "param_c"):
-        "surround factor c in [0.525, 0.69]",
+        ("surround factor c in [0.525, 0.69]",
+         ["param_c"]),
     ("cam16::math::Adapt::<T>::run", "(+ from_f64(27.13) + x)"):
-        "x = (F_L |c| / 100)^0.42 >= 0, so x + 27.13 >= 27.13",
+        ("x = (F_L |c| / 100)^0.42 >= 0, so x + 27.13 >= 27.13",
+         ["(+ from_f64(27.13) + x)"]),
     ("cam16::math::Unadapt::<T>::run", "(- component.abs() + from_f64(400.0))"):
-        "|adapted response| < 400 for every finite forward result (400 x/(x+27.13) < 400)",
+        ("|adapted response| < 400 for every finite forward result (400 x/(x+27.13) < 400)",
+         ["(- c_abs + from_f64(400.0))"]),
     ("color_difference::get_ciede2000_difference", "(+ ((+ other.chroma + this.chroma) / from_f64(2.0)).powi(7) + from_f64(6103515625.0))"):
-        "C^7 + 25^7 >= 25^7",
+        ("C^7 + 25^7 >= 25^7",
+         ["(+ c_bar_pow_seven + twenty_five_pow_seven)"]),
     ("color_difference::get_ciede2000_difference", "((+ (((+ ((+ other.l + this.l) / from_f64(2.0)) - from_f64(50.0)) * (+ ((+ other.l + this.l) / from_ ...#86133a80b22c"):
-        "k_L = 1 and S_L = 1 + ... >= 1",
+        ("k_L = 1 and S_L = 1 + ... >= 1",
+         ["(k_l * s_l)"]),
     ("color_difference::get_ciede2000_difference", "((+ (((+ (+ ((+ ((- (((+ other.chroma + this.chroma) / from_f64(2.0)).powi(7) / (+ ((+ other.chroma  ...#37310c2cc87b"):
-        "k_H = 1; S_H = 1 + 0.015 C' T with T >= 1 - 0.17 - 0.24 - 0.32 - 0.20 = 0.07 > 0, so S_H >= 1",
+        ("k_H = 1; S_H = 1 + 0.015 C' T with T >= 1 - 0.17 - 0.24 - 0.32 - 0.20 = 0.07 > 0, so S_H >= 1",
+         ["(k_h * s_h)"]),
     ("color_difference::get_ciede2000_difference", "((+ (((+ (+ ((+ ((- (((+ other.chroma + this.chroma) / from_f64(2.0)).powi(7) / (+ ((+ other.chroma  ...#a5b53086334d"):
-        "product of the two factors above, each >= 1",
+        ("product of the two factors above, each >= 1",
+         ["(k_c * k_h * s_c * s_h)"]),
     ("color_difference::Wcag21RelativeContrast::relative_contrast", "(+ from_f64(0.05) + min_luma)"):
-        "relative luminance >= 0, so min + 0.05 >= 0.05",
+        ("relative luminance >= 0, so min + 0.05 >= 0.05",
+         ["(+ from_f64(0.05) + min_luma)"]),
     ("<hsl::Hsl<S, T> as FromColorUnclamped<rgb::rgb::Rgb<S, T>>>", "(+ from_f64(2.0) - max - min)"):
-        "scalar arm: taken when sum > 1 and max != min; sum = max + min < 2 unless max = min = 1 which the max != min test excludes",
+        ("scalar arm: taken when sum > 1 and max != min; sum = max + min < 2 unless max = min = 1 which the max != min test excludes",
+         ["(+ from_f64(2.0) - sum)"]),
     ("<hsl::Hsl<S, T> as FromColorUnclamped<rgb::rgb::Rgb<S, T>>>", "(+ max + min)"):
-        "scalar arm: sum <= 1 branch with max != min, channels clamped to >= 0: sum >= max > 0",
+        ("scalar arm: sum <= 1 branch with max != min, channels clamped to >= 0: sum >= max > 0",
+         ["sum"]),
     ("<hsl::Hsl<S, T> as FromColorUnclamped<rgb::rgb::Rgb<S, T>>>", "(+ max - min)"):
-        "scalar arm: inside `if max != min`, d = max - min",
+        ("scalar arm: inside `if max != min`, d = max - min",
+         ["d"]),
     ("<hsl::Hsl<S, T> as FromColorUnclamped<rgb::rgb::Rgb<S, T>>>", "(+ max(max(max(rgb.green, zero()), max(rgb.red, zero())), max(rgb.blue, zero())) + min(max(rgb.blue, ...#a41fed4c0167"):
-        "mask arm: lazy_select else-arm of min == max; same argument as the scalar arm",
+        ("mask arm: lazy_select else-arm of min == max; same argument as the scalar arm",
+         ["sum.gt(one()).select((+ from_f64(2.0) - sum), sum)"]),
     ("<hsv::Hsv<S, T> as FromColorUnclamped<rgb::rgb::Rgb<S, T>>>", "(+ max - min)"):
-        "scalar arm: inside `if max != min`, d = max - min",
+        ("scalar arm: inside `if max != min`, d = max - min",
+         ["d"]),
     ("<hsv::Hsv<S, T> as FromColorUnclamped<rgb::rgb::Rgb<S, T>>>", "max"):
-        "scalar arm: inside `if max != min` with channels clamped to >= 0: max > min >= 0",
+        ("scalar arm: inside `if max != min` with channels clamped to >= 0: max > min >= 0",
+         ["max"]),
     ("<hsv::Hsv<S, T> as FromColorUnclamped<rgb::rgb::Rgb<S, T>>>", "max(max(max(rgb.green, zero()), max(rgb.red, zero())), max(rgb.blue, zero()))"):
-        "mask arm: else-arm of chroma == 0; chroma = value - min > 0 and min >= 0 give value > 0",
+        ("mask arm: else-arm of chroma == 0; chroma = value - min > 0 and min >= 0 give value > 0",
+         ["value"]),
     ("Hwb<S, T> as Clamp>::clamp", "divisor"):
-        "divisor = select(sum > 1, sum, 1): either > 1 or exactly 1",
+        ("divisor = select(sum > 1, sum, 1): either > 1 or exactly 1",
+         ["divisor"]),
     ("Hwb<S, T> as ClampAssign>::clamp_assign", "divisor"):
-        "divisor = select(sum > 1, sum, 1): either > 1 or exactly 1",
+        ("divisor = select(sum > 1, sum, 1): either > 1 or exactly 1",
+         ["divisor"]),
     ("<lab::Lab<Wp, T> as FromColorUnclamped<xyz::Xyz<Wp, T>>>", "get_xyz().with_white_point()"):
-        "white point tristimulus values are positive literals (C14 checks the table)",
+        ("white point tristimulus values are positive literals (C14 checks the table)",
+         ["get_xyz().with_white_point()"]),
     ("<luv::Luv<Wp, T> as FromColorUnclamped<xyz::Xyz<Wp, T>>>", "(+ (from_f64(15.0) * w.y) + (from_f64(3.0) * w.z) + w.x)"):
-        "white point tristimulus values are positive literals",
+        ("white point tristimulus values are positive literals",
+         ["(+ (from_f64(15.0) * w.y) + (from_f64(3.0) * w.z) + w.x)"]),
     ("<luv::Luv<Wp, T> as FromColorUnclamped<xyz::Xyz<Wp, T>>>", "w.y"):
-        "white point luminance is a positive literal",
+        ("white point luminance is a positive literal",
+         ["w.y"]),
     ("luv_bounds::LuvBounds::from_lightness", "(+ ((- (126452.0 * index) + (632260.0 * index)) * sub2) + (126452.0 * t))"):
-        "zero only for l = 0 on the t = 0 lines; the resulting NaN line is skipped by intersect_length_at_angle (|denom| > 1e-6 is false for NaN), the t = 1 lines give length 0, and Hsluv<-Lchuv tests the bound with is_normal",
+        ("zero only for l = 0 on the t = 0 lines; the resulting NaN line is skipped by intersect_length_at_angle (|denom| > 1e-6 is false for NaN), the t = 1 lines give length 0, and Hsluv<-Lchuv tests the bound with is_normal",
+         ["bottom"]),
     ("ok_utils::find_gamut_intersection", "(+ ((+ l0 - l1) * cusp.chroma) + (c1 * cusp.lightness))"):
-        "lower-half intersection: called with l0 = l1 = L, c1 = 1: divisor = L_cusp > 0",
+        ("lower-half intersection: called with l0 = l1 = L, c1 = 1: divisor = L_cusp > 0",
+         ["(+ ((+ l0 - l1) * cusp.chroma) + (c1 * cusp.lightness))"]),
     ("ok_utils::find_gamut_intersection", "(+ ((+ cusp.lightness - one()) * c1) + ((+ l0 - l1) * cusp.chroma))"):
-        "upper-half intersection: called with l0 = l1 = L, c1 = 1: divisor = L_cusp - 1 < 0",
+        ("upper-half intersection: called with l0 = l1 = L, c1 = 1: divisor = L_cusp - 1 < 0",
+         ["(+ ((+ cusp.lightness - one()) * c1) + ((+ l0 - l1) * cusp.chroma))"]),
     ("ok_utils::find_gamut_intersection", "(- ((+ ((+ ((((+ l0 - one()) * cusp.chroma) / (+ ((+ cusp.lightness - one()) * c1) + ((+ l0 - l1) *  ...#27c3602fb0e1"):
-        "Halley denominator (published algorithm)",
+        ("Halley denominator (published algorithm)",
+         ["(- (from_f64(0.5) * r * r2) + (r1 * r1))"]),
     ("ok_utils::find_gamut_intersection", "(- ((- ((+ ((((+ l0 - one()) * cusp.chroma) / (+ ((+ cusp.lightness - one()) * c1) + ((+ l0 - l1) *  ...#a10b8876ff56"):
-        "Halley denominator (published algorithm)",
+        ("Halley denominator (published algorithm)",
+         ["(- (from_f64(0.5) * g * g2) + (g1 * g1))"]),
     ("ok_utils::find_gamut_intersection", "(- ((+ ((+ ((((+ l0 - one()) * cusp.chroma) / (+ ((+ cusp.lightness - one()) * c1) + ((+ l0 - l1) *  ...#4fcf6ee0fe81"):
-        "Halley denominator (published algorithm); a negative u is replaced by FLT_MAX afterwards",
+        ("Halley denominator (published algorithm); a negative u is replaced by FLT_MAX afterwards",
+         ["(- (b * b2 * from_f64(0.5)) + (b1 * b1))"]),
     ("ok_utils::ChromaValues::<T>::from_normalized", "min(((- lightness + one()) * st_max.t), (lightness * st_max.s))"):
-        "min(L S_max, (1-L) T_max) > 0 for 0 < L < 1",
+        ("min(L S_max, (1-L) T_max) > 0 for 0 < L < 1",
+         ["min(((- lightness + one()) * st_max.t), (lightness * st_max.s))"]),
     ("ok_utils::ChromaValues::<T>::from_normalized", "(+ (one() / ((- lightness + one()) * (- lightness + one()) * (- lightness + one()) * (- lightness +  ...#8ca95e0c753e"):
-        "sum of two positive reciprocals",
+        ("sum of two positive reciprocals",
+         ["(+ (one() / (c_a * c_a * c_a * c_a)) + (one() / (c_b * c_b * c_b * c_b)))"]),
     ("ok_utils::ChromaValues::<T>::from_normalized", "(lightness * lightness * lightness * lightness * st_mid.s * st_mid.s * st_mid.s * st_mid.s)"):
-        "C_a = L S_mid > 0 for 0 < L < 1",
+        ("C_a = L S_mid > 0 for 0 < L < 1",
+         ["(c_a * c_a * c_a * c_a)"]),
     ("ok_utils::ChromaValues::<T>::from_normalized", "((- lightness + one()) * (- lightness + one()) * (- lightness + one()) * (- lightness + one()) * st_mid.t * st_mid.t * st_mid.t * st_mid.t)"):
-        "C_b = (1 - L) T_mid > 0 for 0 < L < 1",
+        ("C_b = (1 - L) T_mid > 0 for 0 < L < 1",
+         ["(c_b * c_b * c_b * c_b)"]),
     ("ok_utils::ChromaValues::<T>::from_normalized", "(+ (one() / ((- lightness + one()) * (- lightness + one()) * from_f64(0.8) * from_f64(0.8))) + (one() / (from_f64(0.4) * from_f64(0.4) * lightness * lightness)))"):
-        "sum of two positive reciprocals",
+        ("sum of two positive reciprocals",
+         ["(+ (one() / (c_a * c_a)) + (one() / (c_b * c_b)))"]),
     ("ok_utils::ChromaValues::<T>::from_normalized", "(from_f64(0.4) * from_f64(0.4) * lightness * lightness)"):
-        "C_a = 0.4 L > 0: callers return early for L = 0 and L = 1",
+        ("C_a = 0.4 L > 0: callers return early for L = 0 and L = 1",
+         ["(c_a * c_a)"]),
     ("ok_utils::ChromaValues::<T>::from_normalized", "((- lightness + one()) * (- lightness + one()) * from_f64(0.8) * from_f64(0.8))"):
-        "C_b = 0.8 (1 - L) > 0: callers return early for L = 0 and L = 1",
+        ("C_b = 0.8 (1 - L) > 0: callers return early for L = 0 and L = 1",
+         ["(c_b * c_b)"]),
     ("ok_utils::LC::<T>::find_cusp", "max(max(rgb_at_max.green, rgb_at_max.red), rgb_at_max.blue)"):
-        "the brightest colour of a hue has a positive largest channel",
+        ("the brightest colour of a hue has a positive largest channel",
+         ["max(max(rgb_at_max.green, rgb_at_max.red), rgb_at_max.blue)"]),
     ("ok_utils::LC::<T>::max_saturation", "(- ((+ ((+ ((+ (a * from_f64(-0.0894841775)) - (b * from_f64(1.2914855480))) * approx_max_saturation ...#b3e1e495e226"):
-        "Halley denominator f'^2 - f f''/2: f' != 0 at the fitted saturation (the channel crosses zero transversally); published algorithm",
+        ("Halley denominator f'^2 - f f''/2: f' != 0 at the fitted saturation (the channel crosses zero transversally); published algorithm",
+         ["(- (f * f2 * from_f64(0.5)) + f1.powi(2))"]),
     ("<ok_utils::ST<T> as std::convert::From<ok_utils::LC<T>>>::from", "lc.lightness"):
-        "cusp lightness = cbrt(1/max rgb) lies strictly between 0 and 1",
+        ("cusp lightness = cbrt(1/max rgb) lies strictly between 0 and 1",
+         ["lc.lightness"]),
     ("<ok_utils::ST<T> as std::convert::From<ok_utils::LC<T>>>::from", "(- lc.lightness + one())"):
-        "cusp lightness lies strictly between 0 and 1",
+        ("cusp lightness lies strictly between 0 and 1",
+         ["(- lc.lightness + one())"]),
     ("ok_utils::ST::<T>::mid", "(+ ((+ ((+ ((+ (a_ * from_f64(4.69891013)) + (b_ * from_f64(5.38770819)) + from_f64(-4.24894561)) *  ...#59d456525358"):
-        "published fit: denominator polynomial is positive on the unit circle (a,b)",
+        ("published fit: denominator polynomial is positive on the unit circle (a,b)",
+         ["(+ ((+ ((+ ((+ (a_ * from_f64(4.69891013)) + (b_ * from_f64(5.38770819)) + from_f64(-4.24894561)) *  ...#59d456525358"]),
     ("ok_utils::ST::<T>::mid", "(+ ((+ ((+ ((- (a_ * from_f64(0.14661872)) - (b_ * from_f64(0.45399568)) + from_f64(0.00299215)) * a ...#b476d199fd60"):
-        "published fit: denominator polynomial is positive on the unit circle (a,b)",
+        ("published fit: denominator polynomial is positive on the unit circle (a,b)",
+         ["(+ ((+ ((+ ((- (a_ * from_f64(0.14661872)) - (b_ * from_f64(0.45399568)) + from_f64(0.00299215)) * a ...#b476d199fd60"]),
     ("ok_utils::toe_inv", "(((+ from_f64(0.206) + one()) / (+ from_f64(0.03) + one())) * (+ from_f64(0.03) + l_r))"):
-        "k_3 (x + 0.03) > 0 for x >= 0",
+        ("k_3 (x + 0.03) > 0 for x >= 0",
+         ["((+ k_2 + l_r) * k_3)"]),
     ("<okhsl::Okhsl<T> as FromColorUnclamped<oklab::Oklab<T>>>", "cs.mid"):
-        "C_mid > 0 for 0 < L < 1 (early return handles L = 0, L = 1, C = 0)",
+        ("C_mid > 0 for 0 < L < 1 (early return handles L = 0, L = 1, C = 0)",
+         ["cs.mid"]),
     ("<okhsl::Okhsl<T> as FromColorUnclamped<oklab::Oklab<T>>>", "(+ ((- ((cs.zero * from_f64(0.8)) / cs.mid) + one()) * chroma) + (cs.zero * from_f64(0.8)))"):
-        "Moebius denominator: k_1 + (1 - k_1/C_mid) C > 0 for 0 <= C < C_mid",
+        ("Moebius denominator: k_1 + (1 - k_1/C_mid) C > 0 for 0 <= C < C_mid",
+         ["(+ (chroma * k_2) + k_1)"]),
     ("<okhsl::Okhsl<T> as FromColorUnclamped<oklab::Oklab<T>>>", "cs.zero"):
-        "C_0 > 0 for 0 < L < 1",
+        ("C_0 > 0 for 0 < L < 1",
+         ["cs.zero"]),
     ("<okhsl::Okhsl<T> as FromColorUnclamped<oklab::Oklab<T>>>", "(+ cs.max - cs.mid)"):
-        "C_max > C_mid = 0.9 k (...) < C_max by construction for 0 < L < 1",
+        ("C_max > C_mid = 0.9 k (...) < C_max by construction for 0 < L < 1",
+         ["(+ cs.max - cs.mid)"]),
     ("<okhsl::Okhsl<T> as FromColorUnclamped<oklab::Oklab<T>>>", "(+ (((- from_f64(0.8) + one()) * (cs.mid * from_f64(1.25)).powi(2)) / cs.zero) + ((+ chroma - cs.mid) * (- ((((- from_f64(0.8) + one()) * (cs.mid * from_f64(1.25)).powi(2)) / cs.zero) / (+ cs.max - cs.mid)) + one())))"):
-        "Moebius denominator of the upper piece, positive for C_mid <= C <= C_max",
+        ("Moebius denominator of the upper piece, positive for C_mid <= C <= C_max",
+         ["(+ ((+ chroma - k_0) * k_2) + k_1)"]),
     ("<okhsv::Okhsv<T> as FromColorUnclamped<oklab::Oklab<T>>>", "st_max.s"):
-        "S_max = C_cusp / L_cusp > 0",
+        ("S_max = C_cusp / L_cusp > 0",
+         ["st_max.s"]),
     ("<okhsv::Okhsv<T> as FromColorUnclamped<oklab::Oklab<T>>>", "(+ (lab.l * st_max.t) + chroma)"):
-        "C + L T_max > 0 after the early return for zero chroma",
+        ("C + L T_max > 0 after the early return for zero chroma",
+         ["(+ (lab.l * st_max.t) + chroma)"]),
     ("<okhsv::Okhsv<T> as FromColorUnclamped<oklab::Oklab<T>>>", "((st_max.t / (+ (lab.l * st_max.t) + chroma)) * lab.l)"):
-        "L_v = t L > 0 after the early returns for L = 0",
+        ("L_v = t L > 0 after the early returns for L = 0",
+         ["l_v"]),
     ("<okhsv::Okhsv<T> as FromColorUnclamped<oklab::Oklab<T>>>", "max(max(rgb_scale.blue, zero()), max(rgb_scale.green, rgb_scale.red))"):
-        "max linear-sRGB channel of the hue's brightest colour > 0",
+        ("max linear-sRGB channel of the hue's brightest colour > 0",
+         ["max(max(rgb_scale.blue, zero()), max(rgb_scale.green, rgb_scale.red))"]),
     ("<okhsv::Okhsv<T> as FromColorUnclamped<oklab::Oklab<T>>>", "lightness_scale_factor"):
-        "cbrt of a positive quotient",
+        ("cbrt of a positive quotient",
+         ["lightness_scale_factor"]),
     ("<okhsv::Okhsv<T> as FromColorUnclamped<oklab::Oklab<T>>>", "(+ ((- (from_f64(0.5) / st_max.s) + one()) * (st_max.t / (+ (lab.l * st_max.t) + chroma)) * chroma * st_max.t) + (from_f64(0.5) * st_max.t))"):
-        "T_max S_0 + T_max k C_v > 0 (all factors positive)",
+        ("T_max S_0 + T_max k C_v > 0 (all factors positive)",
+         ["(+ (c_v * k * st_max.t) + (s_0 * st_max.t))"]),
     ("impl Clamp for okhwb::Okhwb<T>>::clamp", "divisor"):
-        "divisor = select(sum > 1, sum, 1): either > 1 or exactly 1",
+        ("divisor = select(sum > 1, sum, 1): either > 1 or exactly 1",
+         ["divisor"]),
     ("impl ClampAssign for okhwb::Okhwb<T>>::clamp_assign", "divisor"):
-        "divisor = select(sum > 1, sum, 1): either > 1 or exactly 1",
+        ("divisor = select(sum > 1, sum, 1): either > 1 or exactly 1",
+         ["divisor"]),
     ("<oklab::Oklab<T> as FromColorUnclamped<okhsl::Okhsl<T>>>", "cs.mid"):
-        "C_mid > 0 for 0 < L < 1 (early returns handle lightness 0 and 1)",
+        ("C_mid > 0 for 0 < L < 1 (early returns handle lightness 0 and 1)",
+         ["cs.mid"]),
     ("<oklab::Oklab<T> as FromColorUnclamped<okhsl::Okhsl<T>>>", "(- ((- ((cs.zero * from_f64(0.8)) / cs.mid) + one()) * from_f64(1.25) * hsl.saturation) + one())"):
-        "lower piece: 1 - k_2 t with k_2 = 1 - k_1/C_mid < 1 and 0 <= t = 1.25 s < 1",
+        ("lower piece: 1 - k_2 t with k_2 = 1 - k_1/C_mid < 1 and 0 <= t = 1.25 s < 1",
+         ["(- (k_2 * t) + one())"]),
     ("<oklab::Oklab<T> as FromColorUnclamped<okhsl::Okhsl<T>>>", "cs.zero"):
-        "C_0 > 0 for 0 < L < 1",
+        ("C_0 > 0 for 0 < L < 1",
+         ["cs.zero"]),
     ("<oklab::Oklab<T> as FromColorUnclamped<okhsl::Okhsl<T>>>", "(+ cs.max - cs.mid)"):
-        "C_max > C_mid for 0 < L < 1",
+        ("C_max > C_mid for 0 < L < 1",
+         ["(+ cs.max - cs.mid)"]),
     ("<oklab::Oklab<T> as FromColorUnclamped<okhsl::Okhsl<T>>>", "(- (((- from_f64(0.8) + hsl.saturation) / (- from_f64(0.8) + one())) * (- ((((- from_f64(0.8) + one()) * cs.mid * cs.mid * from_f64(1.25) * from_f64(1.25)) / cs.zero) / (+ cs.max - cs.mid)) + one())) + one())"):
-        "upper piece: 1 - k_2 t with k_2 = 1 - k_1/(C_max - C_mid) < 1 and 0 <= t <= 1",
+        ("upper piece: 1 - k_2 t with k_2 = 1 - k_1/(C_max - C_mid) < 1 and 0 <= t <= 1",
+         ["(- (k_2 * t) + one())"]),
     ("<oklab::Oklab<T> as FromColorUnclamped<okhsv::Okhsv<T>>>", "cusp.s"):
-        "S_max > 0",
+        ("S_max > 0",
+         ["cusp.s"]),
     ("<oklab::Oklab<T> as FromColorUnclamped<okhsv::Okhsv<T>>>", "(- ((- (from_f64(0.5) / cusp.s) + one()) * cusp.t * hsv.saturation) + cusp.t + from_f64(0.5))"):
-        "S_0 + T_max (1 - k s) > 0 for 0 <= s <= 1, k < 1",
+        ("S_0 + T_max (1 - k s) > 0 for 0 <= s <= 1, k < 1",
+         ["(- (cusp.t * hsv.saturation * k) + cusp.t + s_0)"]),
     ("<oklab::Oklab<T> as FromColorUnclamped<okhsv::Okhsv<T>>>", "(- ((from_f64(0.5) * hsv.saturation) / (- ((- (from_f64(0.5) / cusp.s) + one()) * cusp.t * hsv.saturation) + cusp.t + from_f64(0.5))) + one())"):
-        "L_v = 1 - s S_0/(...) in (0, 1]",
+        ("L_v = 1 - s S_0/(...) in (0, 1]",
+         ["l_v"]),
     ("<oklab::Oklab<T> as FromColorUnclamped<okhsv::Okhsv<T>>>", "lightness"):
-        "after the early return for value = 0: L = v L_v > 0",
+        ("after the early return for value = 0: L = v L_v > 0",
+         ["lightness"]),
     ("<oklab::Oklab<T> as FromColorUnclamped<okhsv::Okhsv<T>>>", "max(max(rgb_scale.blue, zero()), max(rgb_scale.green, rgb_scale.red))"):
-        "max linear-sRGB channel of the hue's brightest colour > 0",
+        ("max linear-sRGB channel of the hue's brightest colour > 0",
+         ["max(max(rgb_scale.blue, zero()), max(rgb_scale.green, rgb_scale.red))"]),
     ("xyz::Xyz::<Wp, T>::normalize", "self.y"):
-        "documented precondition of the (crate-private) helper: used with non-black colours",
+        ("documented precondition of the (crate-private) helper: used with non-black colours",
+         ["y"]),
     ("<xyz::Xyz<Wp, T> as FromColorUnclamped<luv::Luv<Wp, T>>>", "(+ (from_f64(15.0) * w.y) + (from_f64(3.0) * w.z) + w.x)"):
-        "white point tristimulus values are positive literals",
+        ("white point tristimulus values are positive literals",
+         ["(+ (from_f64(15.0) * w.y) + (from_f64(3.0) * w.z) + w.x)"]),
     ("<xyz::Xyz<Wp, T> as FromColorUnclamped<luv::Luv<Wp, T>>>", "(color.l * from_f64(13.0))"):
-        "after the early return for l < 1e-5: 13 l > 0",
+        ("after the early return for l < 1e-5: 13 l > 0",
+         ["(color.l * from_f64(13.0))"]),
 }
 
 PANIC_ALLOW = {
@@ -373,6 +459,16 @@ def _expandable(e):
     return False
 
 
+def shallow_key(e, flow):
+    """Key of an expression with NO local looked through (locals by name), sums and products sorted: unchanged by edits upstream of the
+    locals it mentions; changed by renaming or by introducing a `let` at the site."""
+    r = _norm(e, flow, 0, False)
+    if len(r) > 240:
+        import hashlib
+        return r[:100] + " ...#" + hashlib.sha1(r.encode()).hexdigest()[:12]
+    return r
+
+
 def norm_render(e, flow, depth=0):
     """Canonical key of an expression: invariant under `let` introduction / renaming of arithmetic locals (every arithmetic local is expanded,
     whatever its nesting) and under reordering of sums and products.  Long renderings are abbreviated to a prefix and a digest."""
@@ -383,15 +479,15 @@ def norm_render(e, flow, depth=0):
     return r
 
 
-def _norm(e, flow, depth=0):
+def _norm(e, flow, depth=0, expand=True):
     e = strip(e)
     k = e.get("k")
     if depth > 60:
         return "<deep>"
     if k == "path" and e["res"].get("k") == "local":
-        b = flow.bind.get(e["res"]["h"])
+        b = flow.bind.get(e["res"]["h"]) if expand else None
         if b is not None and _expandable(b) and strip(b) is not e:
-            return _norm(b, flow, depth + 1)
+            return _norm(b, flow, depth + 1, expand)
         return e["res"].get("n") or "?"
     if k == "path":
         d = e["res"].get("d")
@@ -404,14 +500,14 @@ def _norm(e, flow, depth=0):
             while x.get("k") == "mcall" and x.get("n") in ("clone", "into", "borrow") and not x.get("a"):
                 x = strip(x["r"])
             if x.get("k") == "path" and x["res"].get("k") == "local":
-                b = flow.bind.get(x["res"]["h"])
+                b = flow.bind.get(x["res"]["h"]) if expand else None
                 if b is not None and _expandable(b) and strip(b).get("k") == "bin" and strip(b).get("op") in ("+", "-"):
                     return collect(b, sign)
             if x.get("k") == "bin" and x.get("op") in ("+", "-"):
                 collect(x["a"][0], sign)
                 collect(x["a"][1], sign if x["op"] == "+" else -sign)
             else:
-                terms.append((sign, _norm(x, flow, depth + 1)))
+                terms.append((sign, _norm(x, flow, depth + 1, expand)))
         collect(e, 1)
         terms.sort(key=lambda t: t[1])
         return "(" + " ".join(("+ " if sg > 0 else "- ") + t for sg, t in terms) + ")"
@@ -423,42 +519,42 @@ def _norm(e, flow, depth=0):
             while x.get("k") == "mcall" and x.get("n") in ("clone", "into", "borrow") and not x.get("a"):
                 x = strip(x["r"])
             if x.get("k") == "path" and x["res"].get("k") == "local":
-                b = flow.bind.get(x["res"]["h"])
+                b = flow.bind.get(x["res"]["h"]) if expand else None
                 if b is not None and _expandable(b) and strip(b).get("k") == "bin" and strip(b).get("op") == "*":
                     return collect(b)
             if x.get("k") == "bin" and x.get("op") == "*":
                 collect(x["a"][0])
                 collect(x["a"][1])
             else:
-                fs.append(_norm(x, flow, depth + 1))
+                fs.append(_norm(x, flow, depth + 1, expand))
         collect(e)
         return "(" + " * ".join(sorted(fs)) + ")"
     if k == "bin":
-        return "(%s %s %s)" % (_norm(e["a"][0], flow, depth + 1), e.get("op"), _norm(e["a"][1], flow, depth + 1))
+        return "(%s %s %s)" % (_norm(e["a"][0], flow, depth + 1, expand), e.get("op"), _norm(e["a"][1], flow, depth + 1, expand))
     if k == "field":
-        return "%s.%s" % (_norm(e["e"], flow, depth + 1), e["n"])
+        return "%s.%s" % (_norm(e["e"], flow, depth + 1, expand), e["n"])
     if k == "lit":
         return str(e["lit"].get("v"))
     if k == "mcall":
         if e["n"] in ("clone", "into", "borrow") and not e.get("a"):
-            return _norm(e["r"], flow, depth + 1)
-        args = [_norm(a, flow, depth + 1) for a in e.get("a", [])]
+            return _norm(e["r"], flow, depth + 1, expand)
+        args = [_norm(a, flow, depth + 1, expand) for a in e.get("a", [])]
         if e["n"] in ("max", "min"):
-            return "%s(%s)" % (e["n"], ", ".join(sorted([_norm(e["r"], flow, depth + 1)] + args)))
-        return "%s.%s(%s)" % (_norm(e["r"], flow, depth + 1), e["n"], ", ".join(args))
+            return "%s(%s)" % (e["n"], ", ".join(sorted([_norm(e["r"], flow, depth + 1, expand)] + args)))
+        return "%s.%s(%s)" % (_norm(e["r"], flow, depth + 1, expand), e["n"], ", ".join(args))
     if k == "call":
         c = e.get("c")
         nm = c["n"] if isinstance(c, dict) and "n" in c else "ctor"
-        args = [_norm(a, flow, depth + 1) for a in e.get("a", [])]
+        args = [_norm(a, flow, depth + 1, expand) for a in e.get("a", [])]
         if nm in ("max", "min"):
             args = sorted(args)
         return "%s(%s)" % (nm, ", ".join(args))
     if k == "un":
-        return e.get("op", "") + _norm(e["e"], flow, depth + 1)
+        return e.get("op", "") + _norm(e["e"], flow, depth + 1, expand)
     if k == "cast":
-        return _norm(e["e"], flow, depth + 1)
+        return _norm(e["e"], flow, depth + 1, expand)
     if k == "block" and not e.get("s") and e.get("e"):
-        return _norm(e["e"], flow, depth + 1)
+        return _norm(e["e"], flow, depth + 1, expand)
     return k or "?"
 
 
@@ -783,14 +879,22 @@ def run(F, rep, tier="quick", extra=None, only=None):
         key = fn_key(b)
         r = render(div, flow)
         nr = norm_render(div, flow)
+        sk = shallow_key(div, flow)
+        # a reviewed site is recognised by its canonical key (all lets expanded: survives renaming and let-introduction at the site) or, failing
+        # that, by its shallow key (locals by name: survives value-preserving edits upstream of the locals it mentions)
         hit = None
         for (fk, dk) in TABLE:
             if (key == fk or key.endswith(fk) or fk in key) and dk == nr:
                 hit = (fk, dk)
                 break
+        if hit is None:
+            for (fk, dk) in TABLE:
+                if (key == fk or key.endswith(fk) or fk in key) and sk in TABLE[(fk, dk)][1]:
+                    hit = (fk, dk)
+                    break
         if hit:
             if hit not in used:
-                rep.ob("DIV-TABLE", "%s: %s" % (hit[0], hit[1][:70]), True, "reviewed: " + TABLE[hit], loc)
+                rep.ob("DIV-TABLE", "%s: %s" % (hit[0], hit[1][:70]), True, "reviewed: " + TABLE[hit][0], loc)
             used.add(hit)
             n_table += 1
             continue
@@ -817,53 +921,77 @@ DOMAIN = {"sqrt": (">= 0", "nonneg"), "ln": ("> 0", "positive"), "log": ("> 0", 
 # (function key suffix, callee, normalised argument) -> why the argument is inside the domain on the property's inputs
 DOM_TABLE = {
     ("blend::blend::soft_light_blend", "sqrt", "dst"):
-        "backdrop component: the property's blend inputs are in [0, 1]; the arm is selected only for 4*dst > 1 (lazy_select!)",
+        ("backdrop component: the property's blend inputs are in [0, 1]; the arm is selected only for 4*dst > 1 (lazy_select!)",
+         ["dst"]),
     ("cam16::math::xyz_to_cam16", "powf", "(((+ (b_a * from_f64(0.05)) + (from_f64(2.0) * r_a) + g_a) * from_scalar(parameters.n_bb)) / from_scalar(parameters.a_w))"):
-        "A / A_w: the achromatic response of a colour with non-negative cone responses over that of the white; negative only for imaginary colours (negative adapted cone signals), where CAM16 is undefined",
+        ("A / A_w: the achromatic response of a colour with non-negative cone responses over that of the white; negative only for imaginary colours (negative adapted cone signals), where CAM16 is undefined",
+         ["(capital_a / from_scalar(parameters.a_w))"]),
     ("cam16::math::xyz_to_cam16", "powf", "(((+ (((- (b_a * from_f64(2.0)) + g_a + r_a) / from_f64(9.0)) * ((- (b_a * from_f64(2.0)) + g_a + r_ ...#4193b00d5726"):
-        "t: sqrt(..) >= 0, e_t = (cos + 3.8)/4 > 0, N_c, N_cb > 0, denominator = sum of the adapted signals + 0.305 > 0 for real colours",
+        ("t: sqrt(..) >= 0, e_t = (cos + 3.8)/4 > 0, N_c, N_cb > 0, denominator = sum of the adapted signals + 0.305 > 0 for real colours",
+         ["t"]),
     ("cam16::math::xyz_to_cam16", "powf", "(- from_f64(0.29).powf(from_scalar(parameters.n)) + from_f64(1.64))"):
-        "1.64 - 0.29^n with n = Y_b / Y_w > 0: 0.29^n in (0, 1), so the base is in (0.64, 1.64)",
+        ("1.64 - 0.29^n with n = Y_b / Y_w > 0: 0.29^n in (0, 1), so the base is in (0.64, 1.64)",
+         ["(- from_f64(0.29).powf(from_scalar(parameters.n)) + from_f64(1.64))"]),
     ("cam16::math::calculate_saturation", "sqrt", "((alpha * param_c) / (+ from_f64(4.0) + param_a_w))"):
-        "c * alpha / (A_w + 4): c in [0.525, 0.69], A_w > 0, alpha = t^0.9 * (..)^0.73 >= 0 (product of real powers of non-negatives)",
+        ("c * alpha / (A_w + 4): c in [0.525, 0.69], A_w > 0, alpha = t^0.9 * (..)^0.73 >= 0 (product of real powers of non-negatives)",
+         ["((alpha * param_c) / (+ from_f64(4.0) + param_a_w))"]),
     ("cam16::math::non_black_cam16_to_xyz", "powf", "((- from_f64(0.29).powf(from_scalar(parameters.n)) + from_f64(1.64)).powf(from_f64(-0.73)) * alpha)"):
-        "alpha >= 0 (from chroma / colourfulness / saturation >= 0 over sqrt(J) > 0, black excluded by the caller) times a positive power",
+        ("alpha >= 0 (from chroma / colourfulness / saturation >= 0 over sqrt(J) > 0, black excluded by the caller) times a positive power",
+         ["((- from_f64(0.29).powf(from_scalar(parameters.n)) + from_f64(1.64)).powf(from_f64(-0.73)) * alpha)"]),
     ("cam16::math::non_black_cam16_to_xyz", "powf", "(- from_f64(0.29).powf(from_scalar(parameters.n)) + from_f64(1.64))"):
-        "1.64 - 0.29^n with n > 0: base in (0.64, 1.64)",
+        ("1.64 - 0.29^n with n > 0: base in (0.64, 1.64)",
+         ["(- from_f64(0.29).powf(from_scalar(parameters.n)) + from_f64(1.64))"]),
     ("cam16::math::non_black_cam16_to_xyz", "powf", "j_root"):
-        "J_root = sqrt(J)/10 or derived from Q >= 0: a square root or a quotient of non-negatives; black (J = 0) excluded by the caller",
+        ("J_root = sqrt(J)/10 or derived from Q >= 0: a square root or a quotient of non-negatives; black (J = 0) excluded by the caller",
+         ["j_root"]),
     ("cam16::math::prepare_parameters", "powf", "(from_f64(5.0) * parameters.adapting_luminance)"):
-        "5 L_A: the adapting luminance is a physical luminance (cd/m^2), non-negative",
+        ("5 L_A: the adapting luminance is a physical luminance (cd/m^2), non-negative",
+         ["(from_f64(5.0) * l_a)"]),
     ("cam16::math::prepare_parameters", "powf", "f_l"):
-        "F_L = k^4 L_A + 0.1 (1 - k^4)^2 (5 L_A)^(1/3): non-negative terms for L_A >= 0",
+        ("F_L = k^4 L_A + 0.1 (1 - k^4)^2 (5 L_A)^(1/3): non-negative terms for L_A >= 0",
+         ["f_l"]),
     ("cam16::math::prepare_parameters", "sqrt", "((from_f64(100.0) * parameters.background_luminance) / (from_f64(100.0) * parameters.white_point).y)"):
-        "n = Y_b / Y_w: background and white luminance factors, positive",
+        ("n = Y_b / Y_w: background and white luminance factors, positive",
+         ["n"]),
     ("cam16::math::prepare_parameters", "powf", "((from_f64(100.0) * parameters.background_luminance) / (from_f64(100.0) * parameters.white_point).y)"):
-        "n = Y_b / Y_w > 0",
+        ("n = Y_b / Y_w > 0",
+         ["n"]),
     ("cam16::math::lightness_to_j_root", "sqrt", "lightness"):
-        "CAM16 lightness J >= 0 on the property's inputs (documented range 0..100)",
+        ("CAM16 lightness J >= 0 on the property's inputs (documented range 0..100)",
+         ["lightness"]),
     ("cam16::math::Adapt::<T>::run", "powf", "(component.abs() * from_f64(0.01) * from_scalar(self.f_l))"):
-        "F_L * |component| / 100 with F_L >= 0 (see prepare_parameters) and an absolute value",
+        ("F_L * |component| / 100 with F_L >= 0 (see prepare_parameters) and an absolute value",
+         ["(component.abs() * from_f64(0.01) * from_scalar(self.f_l))"]),
     ("cam16::math::Unadapt::<T>::run", "powf", "(component.abs() / (- component.abs() + from_f64(400.0)))"):
-        "|c| / (400 - |c|): the adapted response is bounded by 400 (the forward model's 400 x/(x + 27.13) < 400), so the quotient is >= 0 for every value the forward model produces; |c| >= 400 is outside CAM16's range",
+        ("|c| / (400 - |c|): the adapted response is bounded by 400 (the forward model's 400 x/(x + 27.13) < 400), so the quotient is >= 0 for every value the forward model produces; |c| >= 400 is outside CAM16's range",
+         ["(c_abs / (- c_abs + from_f64(400.0)))"]),
     ("<C as color_difference::ImprovedCiede2000>::improved_difference", "powf", "self.difference(other)"):
-        "a CIEDE2000 difference: the square root of a positive semi-definite form (see get_ciede2000_difference), >= 0",
+        ("a CIEDE2000 difference: the square root of a positive semi-definite form (see get_ciede2000_difference), >= 0",
+         ["self.difference(other)"]),
     ("color_difference::get_ciede2000_difference", "sqrt", "(((+ other.chroma + this.chroma) / from_f64(2.0)).powi(7) / (+ ((+ other.chroma + this.chroma) / from_f64(2.0)).powi(7) + from_f64(6103515625.0)))"):
-        "C-bar^7 / (C-bar^7 + 25^7) with C-bar = mean of two chromas >= 0",
+        ("C-bar^7 / (C-bar^7 + 25^7) with C-bar = mean of two chromas >= 0",
+         ["(c_bar_pow_seven / (+ c_bar_pow_seven + twenty_five_pow_seven))"]),
     ("color_difference::get_ciede2000_difference", "sqrt", "(+ (((((+ ((+ ((- (((+ other.chroma + this.chroma) / from_f64(2.0)).powi(7) / (+ ((+ other.chroma +  ...#409c183c8522"):
-        "x^2 + y^2 + z^2 + R_T y z with |R_T| = |sin(2 dTheta)| R_C <= sin(60 deg) * 2 < 1.74 < 2 (dTheta <= 30 deg, R_C < 2): positive semi-definite with margin (1 - |R_T|/2) >= 0.13, far above rounding",
+        ("x^2 + y^2 + z^2 + R_T y z with |R_T| = |sin(2 dTheta)| R_C <= sin(60 deg) * 2 < 1.74 < 2 (dTheta <= 30 deg, R_C < 2): positive semi-definite with margin (1 - |R_T|/2) >= 0.13, far above rounding",
+         ["(+ ((delta_big_h_prime * delta_c_prime * r_t) / (k_c * k_h * s_c * s_h)) + ((delta_big_h_prime / (k_ ...#9a094d2df28e"]),
     ("color_difference::EuclideanDistance::distance", "sqrt", "self.distance_squared(other)"):
-        "distance_squared is a sum of squares in every impl (C09 ALG-REF euclid:* checks the closed form)",
+        ("distance_squared is a sum of squares in every impl (C09 ALG-REF euclid:* checks the closed form)",
+         ["self.distance_squared(other)"]),
     ("<lab::Lab<Wp, T> as color_difference::ImprovedDeltaE>::improved_delta_e", "powf", "self.distance_squared(other)"):
-        "distance_squared is a sum of squares (C09 ALG-REF)",
+        ("distance_squared is a sum of squares (C09 ALG-REF)",
+         ["self.distance_squared(other)"]),
     ("<luv::Luv<Wp, T> as FromColorUnclamped<xyz::Xyz<Wp, T>>>", "powf", "(color.y / w.y)"):
-        "inside `if y_r > epsilon` (epsilon = (6/29)^3 > 0)",
+        ("inside `if y_r > epsilon` (epsilon = (6/29)^3 > 0)",
+         ["y_r"]),
     ("ok_utils::ChromaValues::<T>::from_normalized", "sqrt", "(one() / (+ (one() / ((- lightness + one()) * (- lightness + one()) * (- lightness + one()) * (- lig ...#60066c7c3a38"):
-        "1 / (1/c_a^4 + 1/c_b^4): even powers, the sum of reciprocals is positive (or +inf at lightness 0 / 1, giving 0)",
+        ("1 / (1/c_a^4 + 1/c_b^4): even powers, the sum of reciprocals is positive (or +inf at lightness 0 / 1, giving 0)",
+         ["(one() / (+ (one() / (c_a * c_a * c_a * c_a)) + (one() / (c_b * c_b * c_b * c_b))))"]),
     ("ok_utils::ChromaValues::<T>::from_normalized", "sqrt", "(one() / (+ (one() / ((- lightness + one()) * (- lightness + one()) * from_f64(0.8) * from_f64(0.8))) + (one() / (from_f64(0.4) * from_f64(0.4) * lightness * lightness))))"):
-        "1 / (1/c_a^2 + 1/c_b^2): squares, positive",
+        ("1 / (1/c_a^2 + 1/c_b^2): squares, positive",
+         ["(one() / (+ (one() / (c_a * c_a)) + (one() / (c_b * c_b))))"]),
     ("ok_utils::toe", "sqrt", "(+ (((+ from_f64(0.206) + one()) / (+ from_f64(0.03) + one())) * from_f64(0.03) * from_f64(4.0) * oklab_lightness) + (+ (((+ from_f64(0.206) + one()) / (+ from_f64(0.03) + one())) * oklab_lightness) - from_f64(0.206)).powi(2))"):
-        "(k3 L - k1)^2 + 4 k2 k3 L with k2, k3 > 0 and Oklab lightness L >= 0 on the property's inputs (for L < 0 the radicand stays positive down to L ~ -0.0126: discriminant of the quadratic)",
+        ("(k3 L - k1)^2 + 4 k2 k3 L with k2, k3 > 0 and Oklab lightness L >= 0 on the property's inputs (for L < 0 the radicand stays positive down to L ~ -0.0126: discriminant of the quadratic)",
+         ["(+ (+ (k_3 * oklab_lightness) - k_1).powi(2) + (from_f64(4.0) * k_2 * k_3 * oklab_lightness))"]),
 }
 
 
@@ -911,14 +1039,20 @@ def check_domains(F, rep):
                 rep.ob("DOM-SHAPE", sk, True, "argument %s by its shape: %s" % (what, why), loc)
             continue
         nr = norm_render(arg, flow)
+        sk = shallow_key(arg, flow)
         hit = None
         for (fk, fn, dk) in DOM_TABLE:
             if fn == name and (key == fk or key.endswith(fk) or fk in key) and dk == nr:
                 hit = (fk, fn, dk)
                 break
+        if hit is None:
+            for (fk, fn, dk) in DOM_TABLE:
+                if fn == name and (key == fk or key.endswith(fk) or fk in key) and sk in DOM_TABLE[(fk, fn, dk)][1]:
+                    hit = (fk, fn, dk)
+                    break
         if hit:
             if hit not in used:
-                rep.ob("DOM-TABLE", "%s: %s(%s)" % (hit[0], name, hit[2][:70]), True, "reviewed: " + DOM_TABLE[hit], loc)
+                rep.ob("DOM-TABLE", "%s: %s(%s)" % (hit[0], name, hit[2][:70]), True, "reviewed: " + DOM_TABLE[hit][0], loc)
             used.add(hit)
             n_table += 1
             continue
